@@ -82,6 +82,12 @@ class C16(Prop):
         if isinstance(prefix, str):
             prefix = prefix.encode()
         steps = []
+        if rng.random() < 0.15:
+            # a server that answers `set` for one key with NOT_STORED: the failed-keys list of set_many and the
+            # False of set must come out of every stack the way they come out of Client
+            k = rng.choice(keys)
+            nodes[0]["opts"] = dict(nodes[0].get("opts") or {},
+                                    refuse_set=[E(prefix + (k.encode("utf8") if isinstance(k, str) else k))])
         for k in keys:   # node states: hit / miss / numeric / non-numeric
             r = rng.random()
             wk = prefix + (k.encode("utf8") if isinstance(k, str) else k)
